@@ -87,6 +87,11 @@ func (r *Result) Obs(o Obs) {
 	r.caseObs = append(r.caseObs, fmt.Sprintf("%s:%x", o.Class, h.Sum64()))
 }
 
+// Volatile marks the current case as having a run-to-run nondeterministic observation for a
+// documented reason (e.g. a known finding rooted in map iteration order): the conformance
+// comparison between builds skips it.
+func (r *Result) Volatile() { r.caseObs = append(r.caseObs, "volatile") }
+
 func (r *Result) Outcome(class string) { r.Outcomes[class]++ }
 func (r *Result) Note(k string, n int)  { r.Notes[k] += n }
 func (r *Result) Trans(n int)           { r.Transitions += int64(n) }
